@@ -6,7 +6,7 @@ From Coq Require Import List Arith NArith Bool Lia.
 From GV Require Import Common.Outcome Base.Grammar Base.Analyses Base.AnalysesProofs LR.Automaton
   LR.Validator LR.Spec LR.Agree LR.CloseMirror LR.CloseSpec C02.Model C02.Spec C02.PagerSpec
   C02.PagerProofsMain C02.Lr1Model C02.LoopModel C02.LoopSpec C02.InducedModel C02.InducedSpec
-  C02.LoopFactsProofs C02.InducedSProofs C02.InducedCProofs C02.InducedEProofs.
+  C02.LoopFactsProofs C02.InducedSProofs C02.InducedCProofs C02.InducedEProofs C02.Lr1Proofs.
 Import ListNotations.
 
 Lemma graph_facts_conflict_free g pg : graph_facts g pg -> lr1_grammar g -> graph_conflict_free g pg.
@@ -33,4 +33,15 @@ Proof.
   destruct (pager_mirror_validated g nl fs max_st fuel orders pg Hpre Hlr1 Hrun) as (HS & HC & HE & _).
   pose proof Hpre as (Hwf & _ & _).
   exact (validated_automata_agree g (induced g pg) B Hwf Hprod HS HC HE HSB HCB HEB input f1 f2 Hin Hne Hf1 Hf2).
+Qed.
+
+Lemma pager_parser_agrees_certified : pager_parser_agrees_certified_stmt.
+Proof.
+  intros g A nl fs max_st fuel orders pg B Hfr Hck Hprod Hrun HSB HCB HEB.
+  destruct (Lr1Proofs.lr1_check_sound g A Hck) as [Hwf Hlr1].
+  destruct (first_ref_exact' g nl fs Hfr) as [Hnl Hfs].
+  assert (Hpre : loop_pre g nl fs) by (split; [exact Hwf|split; assumption]).
+  split.
+  - exact (pager_mirror_validated g nl fs max_st fuel orders pg Hpre Hlr1 Hrun).
+  - exact (pager_parser_agrees g nl fs max_st fuel orders pg B Hpre Hlr1 Hprod Hrun HSB HCB HEB).
 Qed.
